@@ -570,9 +570,16 @@ func ownedTwice(f func() []byte) (first []byte, diff string) {
 	for i := range r1 {
 		r1[i] ^= 0xa5
 	}
+	mine := cloneB(r1)
 	r2 := f()
 	if !bytes.Equal(r2, first) {
 		return first, fmt.Sprintf("first call returned %s; after the caller overwrote that slice, the same call returned %s", hx(first), hx(r2))
+	}
+	if !bytes.Equal(r1, mine) && (len(r1) == 0 || len(r2) == 0 || &r1[0] != &r2[0]) {
+		return first, fmt.Sprintf("the slice the first call returned, overwritten by its caller with %s, reads %s after the second call: the function wrote into memory it had handed out", hx(mine), hx(r1))
+	}
+	if len(r1) > 0 && len(r2) > 0 && &r1[0] == &r2[0] {
+		return first, fmt.Sprintf("two calls returned the same memory (%d octets)", len(r1))
 	}
 	return first, ""
 }
@@ -641,6 +648,57 @@ func appendProbe(root reflect.Value) (changed bool, spare int) {
 		}
 	})
 	return fingerprint(root) != before, spare
+}
+
+// appendProbeLists is appendProbe for the lists inside a decoded value: every slice that
+// is not a byte string and has spare capacity gets one element appended (a copy of its
+// first element, or a zero value), the result is discarded, and nothing reachable from
+// root may have changed. A parser that hands out windows of one shared array as the
+// lists of neighbouring entries fails: appending to one rewrites the next.
+func appendProbeLists(root reflect.Value) (changed bool, spare int) {
+	before := fingerprint(root)
+	var walk func(v reflect.Value, depth int)
+	walk = func(v reflect.Value, depth int) {
+		if depth > 12 || !v.IsValid() {
+			return
+		}
+		switch v.Kind() {
+		case reflect.Ptr, reflect.Interface:
+			if !v.IsNil() {
+				walk(v.Elem(), depth+1)
+			}
+		case reflect.Struct:
+			for i := 0; i < v.NumField(); i++ {
+				walk(v.Field(i), depth+1)
+			}
+		case reflect.Array:
+			for i := 0; i < v.Len(); i++ {
+				walk(v.Index(i), depth+1)
+			}
+		case reflect.Slice:
+			if v.Type().Elem().Kind() == reflect.Uint8 {
+				return
+			}
+			if v.Cap() > v.Len() {
+				spare++
+				el := reflect.Zero(v.Type().Elem())
+				if v.Len() > 0 {
+					el = v.Index(0)
+				}
+				_ = reflect.Append(v, el)
+			}
+			for i := 0; i < v.Len(); i++ {
+				walk(v.Index(i), depth+1)
+			}
+		}
+	}
+	walk(root, 0)
+	return fingerprint(root) != before, spare
+}
+
+func probeLists(root reflect.Value) bool {
+	ch, _ := appendProbeLists(root)
+	return ch
 }
 
 // capacityIndependent checks "what a parser makes of n octets depends on those n
